@@ -139,10 +139,9 @@ _ARCH = {}
 
 
 def arch(target=TARGET):
+    """One architecture object per target and process, shared with vf/isagen.py."""
     if target not in _ARCH:
-        from ppci.api import get_arch
-
-        _ARCH[target] = get_arch(target)
+        _ARCH[target] = isagen.arch(target)
     return _ARCH[target]
 
 
@@ -1407,6 +1406,16 @@ def isa_units(target, stats=None):
                 if u.key in seen:
                     continue
                 seen.add(u.key)
+                # a second fixed operand tuple: other registers, the next accepted integer
+                u.alt_args = None
+                for v2 in ISA_SEEDS[ISA_SEEDS.index(v) + 1 :] + ISA_SEEDS[:1]:
+                    try:
+                        a2 = place_absolute(target, cid, _distinct_registers(target, cls, isagen._default_args(target, cls, v2, choice), [3]))
+                        if a2 != args and isagen.emit_direct_parts(build_instruction({"target": target, "cls": cid, "args": a2}))[0]:
+                            u.alt_args = a2
+                            break
+                    except Exception:
+                        continue
                 units.append(u)
                 got = True
             if not got:
@@ -1873,6 +1882,7 @@ def _worker(arg):
     # ---- isa sweep: every class x operand form as a stand-alone unit (no RegisterUseDef context)
     if sweep:
         stargets, w, nw, kvar, nex = sweep
+        sstates = nstates if kvar else min(nstates, 4)  # quick tier: a few instances x a few states per form
         sunits = []
         for t in stargets:
             sunits.extend(isa_units(t, stats if w == 0 else None))
@@ -1888,14 +1898,14 @@ def _worker(arg):
                     stats.discard(d.reason)
             counters = {}
             first = None
-            res = evaluate_instances([(i, sd) for _, _, sd, i in insts], nstates, counters)
+            res = evaluate_instances([(i, sd) for _, _, sd, i in insts], sstates, counters)
             for (u, a, sd, _), (inst, v, fs) in zip(insts, res):
                 if isinstance(fs, Discard):
                     stats.discard(fs.reason)
                     continue
                 judged.add((u.target, u.cid))
                 unknown, known = _split_failures(fs)
-                case = {"src": {"kind": "isa", "target": u.target}, "select": {"key": u.key, "occ": 0}, "args": a, "seed": sd, "nstates": nstates}
+                case = {"src": {"kind": "isa", "target": u.target}, "select": {"key": u.key, "occ": 0}, "args": a, "seed": sd, "nstates": sstates}
                 _record(stats, case, [(inst, v, len(fs))], unknown, known, {"counters": {}})
                 if unknown and first is None:
                     first = (case, "\n".join(f.line() for f in unknown[:8]))
@@ -1907,6 +1917,8 @@ def _worker(arg):
         if sunits:
             fixed = [(u, None, subseed(seed, "isa", u.key)) for u in sunits]
             for u in sunits:
+                if getattr(u, "alt_args", None):
+                    fixed.append((u, u.alt_args, subseed(seed, "isa-alt", u.key)))
                 if u.args:
                     same = same_register_args(u.target, u.cid, u.args)
                     if same is not None:
@@ -1960,7 +1972,7 @@ def run(ctx):
     nw = 16
     nstates = NSTATES_QUICK if ctx.quick else NSTATES
     nprog = ctx.scale(1, 80)
-    nvar = ctx.scale(48, 5000)
+    nvar = ctx.scale(24, 5000)
     targets = [TARGET]
     rv_ok, rv_note = rvstep.validated()
     ctx.stats.notes.append(rv_note)
@@ -1974,10 +1986,15 @@ def run(ctx):
         shards = _split_sources(idiom_sources(), nw)
     # quick: RISC-V is covered through the fixed idioms and their variants only
     ptargets = (TARGET,) if ctx.quick else tuple(targets)
-    # isa sweep: quick = default operands + 2 drawn operand tuples per (class, operand form);
-    # thorough = 12 tuples x 6 rounds
-    kvar, nex = ctx.scale((2, 1), (12, 6))
-    ctx.pmap(_worker, [(subseed(ctx.seed, PID, w), shards[w], nprog, nvar, nstates, ptargets, (tuple(targets), w, nw, kvar, nex)) for w in range(nw)])
+    # isa sweep: quick = three fixed operand tuples per (class, operand form): distinct registers,
+    # other registers + another integer, all registers equal; thorough adds 12 drawn tuples x 6 rounds
+    kvar, nex = ctx.scale((0, 0), (12, 6))
+    isa_units(TARGET)  # enumerated once here, inherited by the forked shards
+    if rv_ok:
+        sweeps = [((TARGET,), w, nw - NRV, kvar, nex) for w in range(nw - NRV)] + [(RV_TARGETS, w, NRV, kvar, nex) for w in range(NRV)]
+    else:
+        sweeps = [((TARGET,), w, nw, kvar, nex) for w in range(nw)]
+    ctx.pmap(_worker, [(subseed(ctx.seed, PID, w), shards[w], nprog, nvar, nstates, ptargets, sweeps[w]) for w in range(nw)])
     ctx.extra["needs_context"] = {k[len("needs_context:") :]: v for k, v in ctx.stats.hist.items() if k.startswith("needs_context:")}
     ctx.extra["isa_sweep"] = "every class of the isa that vf/isagen.py instantiates, outside the excluded categories, once per operand form (register mode and every memory mode), judged stand-alone by its own annotations"
     ctx.extra["targets_covered"] = ["x86_64 (native single-stepping on the host CPU)"] + (
